@@ -376,6 +376,19 @@ func (p *Planner) tryOptimizeJoinDirectionByFilter(node *invertibleTypeJoin, par
 				mapper.Field{Name: subFieldName, Index: subFieldInd})
 
 			fieldFilter := extractRelatedSubFilter(relevantFilter, node.parentSide.plan.DocumentMap(), relatedField)
+			if fieldFilter != nil && !node.parentSide.relFieldDef.Value().Kind.IsArray() {
+				// The inverted join reaches the parent documents only through the child documents that match
+				// the filter, a parent without a child document is never reached. If the filter also holds
+				// for a missing child document (like `_ne`, `_nin` or `_eq: null`), such parents are part
+				// of the result and the join direction must be kept.
+				matchesMissingDoc, err := connor.Match(fieldFilter.Conditions, nil)
+				if err != nil {
+					return false, err
+				}
+				if matchesMissingDoc {
+					continue
+				}
+			}
 			// At the moment we just take the first index, but later we want to run some kind of analysis to
 			// determine which index is best to use. https://github.com/sourcenetwork/defradb/issues/2680
 			err := node.invertJoinDirectionWithIndex(indexes[0], fieldFilter, nil)
